@@ -413,7 +413,7 @@ class Judged:
         self.nontrivial = set()
 
 
-def judge(run, wd, name, stims, acc, tables, extra=None):
+def judge(run, wd, name, stims, acc, tables, extra=None, cfg="Trace_FutureDeque.cfg"):
     """Runs the harness on stims, validates the trace with TLC (API-level judge and trace-level RC11, in parallel with
     `extra(table, unknown)` if given), reports rejections as violations."""
     from collections import Counter
@@ -431,7 +431,7 @@ def judge(run, wd, name, stims, acc, tables, extra=None):
     tab = ordering_table(runs)
     tables.append(tab)
     with ThreadPoolExecutor(3) as ex:
-        f1 = ex.submit(validate_trace, D, "Trace_FutureDeque", tp, "Trace_FutureDeque.cfg", 3000)
+        f1 = ex.submit(validate_trace, D, "Trace_FutureDeque", tp, cfg, 3000)
         f2 = ex.submit(judge_rc11, run, wd, name, runs, by_id)
         f3 = ex.submit(extra, *merge_tables([tab])) if extra else None
         ok, rejects, tr = f1.result()
@@ -583,6 +583,18 @@ def check(run):
             shared.append(dict(st, id=500000 + len(shared), parents="shared-data"))
     run.cov["shared_data_parent_waker_runs"] = len(shared)
     sums = judge(run, wd, "runs", stims + rstims + shared, acc, tables, extra=lambda t, u: wmm(run, wd, t, u, thorough)) or []
+    # many futures activated at the same poll (beyond the explorer's bound; judged with MaxF = 48): every one of them is polled again
+    big = []
+    for j, (nf, variant, beh) in enumerate([(40, "send", ["wake", "ready"]), (40, "local", ["wake", "ready"]), (33, "send", ["wake", "wake", "ready"]),
+                                            (48, "local", ["wake", "ready"]), (36, "send", ["ready"])]):
+        dops = [{"op": "push_back" if f % 3 else "push_front", "f": f} for f in range(1, nf + 1)]
+        dops += [{"op": "poll", "p": 1}] * (len(beh) + 1) + [{"op": "pop_front"}] * 3 + [{"op": "poll", "p": 2}, {"op": "drop"}]
+        big.append({"id": 700000 + j, "variant": variant, "dops": dops, "fut": {str(f): beh for f in range(1, nf + 1)}, "rops": [[], []],
+                    "strategy": "random", "seed": run.seed + j})
+    cfg_big = os.path.join(wd, "Trace_FutureDeque_big.cfg")
+    open(cfg_big, "w").write(open(os.path.join(D, "Trace_FutureDeque.cfg")).read().replace("MaxF = 4", "MaxF = 48"))
+    judge(run, wd, "manyfutures", big, acc, tables, cfg=cfg_big)
+    run.cov["many_futures_runs"] = len(big)
     replay_drift = sum(1 for s in sums if s["id"] < 100000 and s["drift"] > 0)
 
     # a counterexample of the explorer must be reproduced by the real code, otherwise it is a modelling error
